@@ -11,6 +11,7 @@ import (
 	"go/token"
 	"go/types"
 	"math/big"
+	"os"
 	"regexp"
 	"strings"
 
@@ -134,6 +135,13 @@ func analyseKernel(ctx *Ctx, fn *ssa.Function, nverts int, interp string) (*kern
 			kf.bitIsInside = false
 		default:
 			return nil, fmt.Errorf("configuration bit is set under %q: not an order comparison", kf.bitCmp)
+		}
+	}
+	if !found {
+		// written out corner by corner (no loop): the index the case table is read at, evaluated
+		// for every assignment of sides to the corner values, must be Σ bit(i)<<i
+		if cmp, inside, ok := writtenOutIndex(ev); ok {
+			found, kf.bitCmp, kf.bitIsInside = true, cmp, inside
 		}
 	}
 	if !found {
@@ -294,6 +302,113 @@ func analyseKernel(ctx *Ctx, fn *ssa.Function, nverts int, interp string) (*kern
 	}
 	kf.interpA, kf.interpB = col(p1), col(p2)
 	return kf, nil
+}
+
+// writtenOutIndex: the configuration index of a kernel that sets its bits one statement per
+// corner. The index is the argument of a read of a package-level table; its atoms are the corner
+// values v[i] and the iso value.
+func writtenOutIndex(ev *Evaluator) (cmp string, inside bool, ok bool) {
+	reVal := regexp.MustCompile(`^(\w+)\[(\d+)\]$`)
+	var cands []*Term
+	seen := map[string]bool{}
+	visit := func(v Val) {
+		t, isT := v.(*Term)
+		if !isT {
+			return
+		}
+		for _, x := range findSub(t, func(y *Term) bool { return y.Op == "sel" && strings.HasPrefix(y.S, "global:") && len(y.Args) == 1 }) {
+			if !seen[x.Args[0].Key()] {
+				seen[x.Args[0].Key()] = true
+				cands = append(cands, x.Args[0])
+			}
+		}
+	}
+	for _, e := range ev.Events {
+		if e.Cond != nil {
+			visit(e.Cond)
+		}
+		for _, a := range e.Args {
+			m := map[string]*Term{}
+			leafTerms("", a, m)
+			for _, t := range m {
+				visit(t)
+			}
+		}
+	}
+	if os.Getenv("SDFXLINT_DEBUG") != "" {
+		for _, e := range ev.Events {
+			fmt.Fprintln(os.Stderr, "DBG event", e.Callee, shortKey(tk(e.Cond), 300))
+			for _, a := range e.Args {
+				fmt.Fprintln(os.Stderr, "   arg", shortKey(valKey(a), 300))
+			}
+		}
+		for _, c := range cands {
+			fmt.Fprintln(os.Stderr, "DBG cand", shortKey(c.Key(), 400))
+		}
+	}
+	for _, idx := range cands {
+		base, iso := "", ""
+		n := 0
+		okAtoms := true
+		for _, a := range findSub(idx, func(y *Term) bool { return y.Op == "a" }) {
+			if m := reVal.FindStringSubmatch(a.S); m != nil {
+				if base != "" && base != m[1] {
+					okAtoms = false
+				}
+				base = m[1]
+				var k int
+				fmt.Sscan(m[2], &k)
+				if k+1 > n {
+					n = k + 1
+				}
+			} else if iso == "" || iso == a.S {
+				iso = a.S
+			} else {
+				okAtoms = false
+			}
+		}
+		if !okAtoms || base == "" || n < 2 || n > 8 || len(findSub(idx, func(y *Term) bool { return y.Op == "cmp" })) < n {
+			continue
+		}
+		matchLess, matchGreater := true, true
+		func() {
+			defer func() {
+				if recover() != nil {
+					matchLess, matchGreater = false, false
+				}
+			}()
+			for m := 0; m < 1<<uint(n); m++ {
+				env := map[string]*big.Rat{}
+				if iso != "" {
+					env[iso] = new(big.Rat)
+				}
+				less, greater := int64(0), int64(0)
+				for k := 0; k < n; k++ {
+					if m>>uint(k)&1 == 1 {
+						env[fmt.Sprintf("%s[%d]", base, k)] = big.NewRat(-1, 1)
+						less |= 1 << uint(k)
+					} else {
+						env[fmt.Sprintf("%s[%d]", base, k)] = big.NewRat(1, 1)
+						greater |= 1 << uint(k)
+					}
+				}
+				got := evalT(idx, env)
+				if !got.IsInt() || got.Num().Int64() != less {
+					matchLess = false
+				}
+				if !got.IsInt() || got.Num().Int64() != greater {
+					matchGreater = false
+				}
+			}
+		}()
+		switch {
+		case matchLess:
+			return base + "[i] < " + iso + " (written out)", true, true
+		case matchGreater:
+			return base + "[i] > " + iso + " (written out)", false, true
+		}
+	}
+	return "", false, false
 }
 
 func flipCmp(op string) string {
@@ -734,7 +849,12 @@ func everyCellFeedsKernel(ctx *Ctx, r *Report, rule string, fn *ssa.Function, ke
 		return
 	}
 	var signOnly func(v ssa.Value, seen map[ssa.Value]bool) bool
+	// parameters of a predicate helper stand for the arguments of its (single level) call
+	argOf := map[ssa.Value]ssa.Value{}
 	isZero := func(v ssa.Value) bool {
+		if a, ok := argOf[v]; ok {
+			v = a
+		}
 		c, ok := v.(*ssa.Const)
 		if !ok || c.Value == nil {
 			return false
@@ -776,6 +896,31 @@ func everyCellFeedsKernel(ctx *Ctx, r *Report, rule string, fn *ssa.Function, ke
 				}
 			}
 			return true
+		case *ssa.Call:
+			// a predicate helper (`allOnOneSide(values, 0)`): its result must be a test of signs
+			// with the arguments it is given; one level, no recursion
+			g := x.Call.StaticCallee()
+			if g == nil || !inModule(g) || len(g.Blocks) == 0 || len(argOf) != 0 || len(g.Params) != len(x.Call.Args) {
+				return false
+			}
+			for i, p := range g.Params {
+				argOf[p] = x.Call.Args[i]
+			}
+			defer func() {
+				for k := range argOf {
+					delete(argOf, k)
+				}
+			}()
+			ok, nret := true, 0
+			allInstrs(g, func(_ *ssa.BasicBlock, ins ssa.Instruction) {
+				if ret, isRet := ins.(*ssa.Return); isRet {
+					nret++
+					if len(ret.Results) != 1 || !signOnly(ret.Results[0], seen) {
+						ok = false
+					}
+				}
+			})
+			return ok && nret > 0
 		}
 		return false
 	}
@@ -808,6 +953,14 @@ func everyCellFeedsKernel(ctx *Ctx, r *Report, rule string, fn *ssa.Function, ke
 	for _, ref := range *kcall.Referrers() {
 		if c, ok := ref.(*ssa.Call); ok && c.Call.IsInvoke() && c.Call.Method.Name() == "Write" {
 			wr = c
+		}
+		// `lines := nil; if crossed { lines = kernel(..) }; w.Write(lines)`: through the join
+		if phi, ok := ref.(*ssa.Phi); ok && phi.Referrers() != nil {
+			for _, r2 := range *phi.Referrers() {
+				if c, ok := r2.(*ssa.Call); ok && c.Call.IsInvoke() && c.Call.Method.Name() == "Write" && len(c.Call.Args) == 1 && c.Call.Args[0] == phi {
+					wr = c
+				}
+			}
 		}
 	}
 	if wr == nil {
